@@ -159,6 +159,8 @@ def run_world(w: World, only=None):
 
         def hook(cb, tid):
             for g in cross.pop((mi, cb, tid), []):
+                if g in active:
+                    continue    # would re-enter a machine that is in the middle of its own operation (a nested send)
                 run_next(g, nested=True)
         s.rt.cross_hook = hook
 
